@@ -491,3 +491,34 @@ MCQ_UNITS.append(Unit("mcq.new_block_index", "../C17/mcq_index.c", enforce="new_
     doc="I: growing the circular block index keeps every carried-over entry at the same distance behind the tail (what the lookup "
         "arithmetic relies on), puts each fresh entry in one slot after the tail, initialises every slot once, publishes a complete "
         "header; nothing changes when the allocation fails (symbolic power-of-two capacities)"))
+
+
+# ---- ConcurrentQueue::implicit_producer_thread_exited (added by main after seeded change C17-6 was missed) ----
+MCQ_EXIT_OUTER = """
+__CPROVER_assigns(hash, probedKey, g_h, g_present, g_vd, g_cleared, g_probes, g_chain_done, g_tables)
+__CPROVER_loop_invariant((hash == NULL && g_chain_done) || (hash == &g_h && !g_chain_done && g_probes == 0 && !g_cleared && IS_POW2(g_h.capacity) && g_h.capacity <= ((size_t)1 << 32) && g_vd < g_h.capacity))
+__CPROVER_loop_invariant(g_tables >= 1 && g_tables <= 2)
+"""
+MCQ_EXIT_INNER = """
+__CPROVER_assigns(index, probedKey, g_cleared, g_probes)
+__CPROVER_loop_invariant((index & (g_h.capacity - 1)) == ((hashedId + g_probes) & (g_h.capacity - 1)) && g_probes <= g_h.capacity)
+__CPROVER_loop_invariant(g_present ==> (g_probes <= g_vd && !g_cleared))
+"""
+MCQ_UNITS.append(Unit("mcq.thread_exited", "../C17/mcq_exit.c", enforce="implicit_producer_thread_exited", lifts={"body": Lift(MCQ,
+    r"void implicit_producer_thread_exited\(ImplicitProducer\* producer\)", rules=[
+        Sub(r"\bauto (\w+) = implicitProducerHash\.load\([^)]*\);", r"struct hash *\1 = hash_head();", 1),
+        Call(r"\bassert", "VX_PIKA_ASSERT({args})", None),
+        Sub(r"\bauto (\w+) = detail::thread_id\(\);", r"thread_id_t \1 = my_thread_id();", 1),
+        Sub(r"\bauto (\w+) = detail::hash_thread_id\((\w+)\);", r"size_t \1 = hash_thread_id(\2);", 1),
+        Sub(r"\bdetail::thread_id_t\b", "thread_id_t", None),
+        Sub(r"\bauto (\w+) = hashedId;", r"size_t \1 = hashedId;", None),
+        Sub(r"\b(\w+) = \1->prev\b", r"\1 = hash_prev(\1)", None),
+        Sub(r"\b(\w+)->entries\[(\w+)\]\.key\.compare_exchange_strong\(\s*(\w+),\s*detail::(invalid_thread_id2?),[^()]*\)",
+            lambda m: "entry_key_cas(%s, %s, &%s, %s)" % (m.group(1), m.group(2), m.group(3), "INVALID_ID2" if m.group(4).endswith("2") else "INVALID_ID"), None),
+        Sub(r"\bdetail::\s*invalid_thread_id2\b", "INVALID_ID2", None),
+        Sub(r"\bdetail::\s*invalid_thread_id\b", "INVALID_ID", None),
+        Sub(r"\b(\w+)->inactive\.store\((\w+), std::memory_order_\w+\);", r"producer_inactive_store(\1, \2);", 1),
+    ], loops={"by_pattern": [(r"for\s*\(\s*;\s*hash\b", MCQ_EXIT_OUTER, True), (r"do\b", MCQ_EXIT_INNER, True)]})},
+    funcs=[MCQ + ": ConcurrentQueue::implicit_producer_thread_exited"], min_obligations=20, solver=["--sat-solver", "cadical"],
+    doc="I: the exiting thread's <id -> producer> entry is turned into a tombstone in EVERY hash table of the chain (linear probing "
+        "from its home slot, any collision distance) before the producer is marked recyclable; the CAS only ever targets the thread's own id"))
